@@ -61,17 +61,18 @@ fn node_secret(i: u32) -> Option<&'static [u8]> {
     }
 }
 
-/// run `f` once per concrete value k in 0..n of a symbolic index
-fn for_each_below(n: u32, mut f: impl FnMut(u32)) {
-    let x: u32 = kani::any();
-    kani::assume(x < n);
-    let mut k = 0;
-    while k < n {
-        if x == k {
-            f(k);
-        }
-        k += 1;
-    }
+// The tree-math functions of tree_kem/math.rs carry C20 contracts whose oracle walks down the
+// maximal tree (25 iterations).  The contracts are proved by the C20 harnesses and are not
+// what these harnesses check, but Kani compiles them into every caller; their oracle is cut
+// out here so that the harness-wide unwind bound can stay small.
+fn no_oracle_3(_x: u64, _r: u64, _right: bool) -> bool {
+    true
+}
+fn no_oracle_1(x: u64) -> bool {
+    x % 2 == 0
+}
+fn no_oracle_ps(_x: u64, _n: u64, _r: Option<(u64, u64)>) -> bool {
+    true
 }
 
 // Independent child computation (not the xor formulas of math.rs / RFC appendix C): a node
@@ -117,9 +118,10 @@ fn c13_tree_new_bounded_8() {
 #[kani::stub(std::hash::RandomState::new, fixed_random_state)]
 #[kani::stub(crate::group::secret_tree::TreeSecretsVec::set_node, model_set_node)]
 #[kani::stub(crate::group::secret_tree::TreeSecretsVec::take_node, model_take_node)]
-// unwind 28: Kani compiles the contracts attached to the tree-math functions (C20) into
-// every caller; their oracle descends the maximal tree (25 levels)
-#[kani::unwind(28)]
+#[kani::stub(crate::tree_kem::math::verif_kani::spec_child_ok, no_oracle_3)]
+#[kani::stub(crate::tree_kem::math::verif_kani::spec_is_leaf, no_oracle_1)]
+#[kani::stub(crate::tree_kem::math::verif_kani::spec_parent_sibling_ok, no_oracle_ps)]
+#[kani::unwind(18)]
 fn c13_consume_node_bounded_8() {
     let secret = any_exact::<NH>();
     for_each_below(7, |half| {
@@ -308,13 +310,13 @@ fn c13_ratchet_next_message_key_provider_error() {
 #[kani::stub(std::hash::RandomState::new, fixed_random_state)]
 #[kani::stub(crate::group::secret_tree::TreeSecretsVec::set_node, model_set_node)]
 #[kani::stub(crate::group::secret_tree::TreeSecretsVec::take_node, model_take_node)]
-// unwind 28: Kani compiles the contracts attached to the tree-math functions (C20) into
-// every caller; their oracle descends the maximal tree (25 levels)
-#[kani::unwind(28)]
+#[kani::stub(crate::tree_kem::math::verif_kani::spec_child_ok, no_oracle_3)]
+#[kani::stub(crate::tree_kem::math::verif_kani::spec_is_leaf, no_oracle_1)]
+#[kani::stub(crate::tree_kem::math::verif_kani::spec_parent_sibling_ok, no_oracle_ps)]
+#[kani::unwind(18)]
 fn c13_tree_first_message_key_bounded_4() {
     let enc = any_exact::<NH>();
-    let handshake: bool = kani::any();
-    for_each_below(4, |leaf| first_message_key_case(&enc, leaf, handshake));
+    for_each_bool(|handshake| for_each_below(4, |leaf| first_message_key_case(&enc, leaf, handshake)));
 }
 
 fn first_message_key_case(enc: &[u8], leaf: u32, handshake: bool) {
